@@ -19,6 +19,7 @@ def _job(args):
         prog, key = _PROG
         ex = engine.Explorer(prog, opts.get('timeout_ms', 60000))
         if 'max_paths' in opts: ex.max_paths = opts['max_paths']
+        if 'split_after' in opts: ex.split_after = opts['split_after']
         if 'instr_budget' in opts: ex.it.instr_budget = opts['instr_budget']
         if 'max_loop' in opts: ex.it.max_loop = opts['max_loop']
         if opts.get('panic_ok'): ex.uncaught_panic_is_violation = False
@@ -47,6 +48,7 @@ def _job(args):
         s['harness'] = name
         s['prefixes'] = prefixes
         s['label'] = opts.get('label')
+        s['opts'] = opts; s['init_pkgs'] = init_pkgs
         return s
     except SystemExit:
         return {'harness': name, 'error': 'machinery exit', 'prefixes': prefixes}
@@ -167,6 +169,7 @@ func vfStrOf(raw json.RawMessage) string {
 	return string(b)
 }
 func vfParamStr(name string) string { return vfStrOf(vfNext("vfParamStr", name)) }
+func vfBytes(name string, n int) string { return vfStrOf(vfNext("vfBytes", name)) }
 func vfParamInt(name string) int    { return int(vfU(vfNext("vfParamInt", name))) }
 func vfUFInt(name string, args ...int) int {
 	return int(vfU(vfNext("vfUFInt", name)))
@@ -335,21 +338,34 @@ def run_property(prop, tier, jobs, meta, seed=0, procs=None):
     """jobs: list of (harness_full, init_pkgs, prefixes|None, opts)."""
     t0 = time.time()
     engine.load_program()  # build the dump once (content-keyed) before forking workers
-    procs = procs or min(16, max(1, len(jobs)))
+    procs = procs or (16 if any('split_after' in j[3] for j in jobs) else min(16, max(1, len(jobs))))
     if seed:
         import random
         random.Random(seed).shuffle(jobs)
     results = []
     progress = os.environ.get('VERIF_PROGRESS')
+    njobs = len(jobs)
     with multiprocessing.Pool(procs, initializer=_init_worker) as pool:
-        for r in pool.imap_unordered(_job, jobs, chunksize=1):
+      wave = list(jobs)
+      while wave:
+        nxt = []
+        for r in pool.imap_unordered(_job, wave, chunksize=1):
             results.append(r)
+            lo = r.get('leftover') or []
+            if lo:
+                o = dict(r['opts']); o['split_after'] = int(o.get('split_after', 50) * 2)
+                per = max(1, len(lo) // 4)
+                for k in range(0, len(lo), per):
+                    nxt.append((r['harness'], r['init_pkgs'], lo[k:k + per], o))
             if progress:
                 print('[%d/%d] %.1fs %s %s paths=%s viol=%s %s' % (len(results), len(jobs), r.get('wall_s', -1), r['harness'].rsplit('.', 1)[-1], r.get('label') or r.get('prefixes'),
                       r.get('paths'), len(r.get('violations', [])), (r.get('error') or '')[-200:].replace('\n', ' | ')), file=sys.stderr, flush=True)
+        wave = nxt
+        njobs += len(nxt)
+    jobs = [None] * njobs
     results.sort(key=lambda r: (r['harness'], str(r.get('label')), str(r.get('prefixes'))))
     agg = {'paths': 0, 'instrs': 0, 'q_sat': 0, 'q_unsat': 0, 'q_unknown': 0, 'solver_s': 0.0, 'proved': 0, 'failed': 0,
-           'unsupported': {}, 'unwind': 0, 'reach': {}, 'functions': set(), 'samples': [], 'inconclusive': [], 'errors': [], 'outcomes': {}}
+           'unsupported': {}, 'unwind': 0, 'reach': {}, 'cuts': {}, 'functions': set(), 'samples': [], 'inconclusive': [], 'errors': [], 'outcomes': {}}
     viols = []
     for r in results:
         if 'error' in r:
@@ -361,6 +377,7 @@ def run_property(prop, tier, jobs, meta, seed=0, procs=None):
         agg['unwind'] += r['unwind']
         for k, v in r['unsupported'].items(): agg['unsupported'][k] = agg['unsupported'].get(k, 0) + v
         for k, v in r['reach'].items(): agg['reach'][k] = agg['reach'].get(k, 0) + v
+        for k, v in r.get('cuts', {}).items(): agg['cuts'][k] = agg['cuts'].get(k, 0) + v
         for k, v in r['outcomes'].items(): agg['outcomes'][k] = agg['outcomes'].get(k, 0) + v
         agg['functions'].update(f for f in r['functions'] if '/harness' not in f)
         for s in r['samples']:
@@ -371,7 +388,7 @@ def run_property(prop, tier, jobs, meta, seed=0, procs=None):
             v['harness_full'] = r['harness']
             viols.append(v)
     # ------------------------------------------------------------ replay
-    rdir = os.path.join(VERIF, 'replays', prop)
+    rdir = os.path.join(os.environ.get('VERIF_REPLAY_DIR', os.path.join(VERIF, 'replays')), prop)
     shutil.rmtree(rdir, ignore_errors=True)
     os.makedirs(rdir, exist_ok=True)
     specs = []
@@ -448,7 +465,7 @@ def run_property(prop, tier, jobs, meta, seed=0, procs=None):
             'queries': {'sat': agg['q_sat'], 'unsat': agg['q_unsat'], 'unknown': agg['q_unknown']},
             'solver_s': round(agg['solver_s'], 2),
             'assertions_discharged': agg['proved'], 'assertions_violated': agg['failed'],
-            'path_outcomes': agg['outcomes'], 'reachability_markers': agg['reach'],
+            'path_outcomes': agg['outcomes'], 'reachability_markers': agg['reach'], 'paths_cut_outside_bound': agg['cuts'],
             'inconclusive': {'unsupported': agg['unsupported'], 'unwind': agg['unwind'], 'errors': [e[0] for e in agg['errors']]},
             'jobs': len(jobs), 'confirmed_violations': len(confirmed), 'spurious_models': len(spurious),
             'known_findings_seen': sorted(kf_seen),
@@ -458,8 +475,9 @@ def run_property(prop, tier, jobs, meta, seed=0, procs=None):
         'wall_s': round(wall, 2),
         'violations': new_viol,
     }
-    os.makedirs(os.path.join(VERIF, 'evidence'), exist_ok=True)
-    json.dump(ev, open(os.path.join(VERIF, 'evidence', prop + '.json'), 'w'), indent=1, default=str)
+    evdir = os.environ.get('VERIF_EVIDENCE_DIR', os.path.join(VERIF, 'evidence'))
+    os.makedirs(evdir, exist_ok=True)
+    json.dump(ev, open(os.path.join(evdir, prop + '.json'), 'w'), indent=1, default=str)
     for l in lines:
         print(l)
     print('SUMMARY property=%s tier=%s paths=%d instrs=%d asserts_discharged=%d violated=%d confirmed=%d spurious=%d queries(sat/unsat/unknown)=%d/%d/%d solver_s=%.1f wall_s=%.1f' % (
